@@ -19,6 +19,7 @@ from vf.engine.real import LogVal, SymReal
 from vf.engine.arr import NpProxy, RandomStub, patched, sarr
 from vf.engine.util import real, eq, le, lt, boolean
 from vf.props.mcmc_common import Draws, isinf_model
+from vf.props.c13 import core_proxy, numpy_import_as
 
 PROPERTY_ID = "C11"
 ASSUMPTIONS = [
@@ -60,7 +61,7 @@ def make_warmup_run(n, W, dynamic=False):
         stub = RandomStub(Draws(ctx), max_calls=3 * W + 2)
         from vf.props.c05 import max_model
         vv_stub = (lambda u, w: 0.25) if dynamic else rw_mod.volume_variation  # warm-up never advances: the metric value is irrelevant
-        with patched(sm_mod, np=NpProxy(exact_log=True)), \
+        with patched(sm_mod, np=NpProxy(exact_log=True)), patched(core_mod, np=core_proxy()), numpy_import_as(core_proxy()), \
                 patched(rw_mod, np=NpProxy(exact_log=True, overrides={"max": max_model, "isfinite": lambda v: True}), volume_variation=vv_stub), \
                 patched(mutate_mod, np=NpProxy(random=stub, exact_log=True, overrides={"isinf": isinf_model})):
             for it in range(W):
@@ -136,8 +137,133 @@ def make_warmup_run(n, W, dynamic=False):
                       theory="QF_NRA", timeout_ms=20000, max_paths=6000)
 
 
+def make_warmup_resume(n, W1, W2):
+    """W1 warm-up iterations, checkpoint, a *new* sampler resumes from the checkpoint and performs W2 more warm-up iterations:
+    the zero-likelihood fraction must still be counted once (nothing remembered outside the checkpointed state may enter)."""
+    from pathlib import Path
+    import tempfile
+    from vf.props.c08 import FakeFS, io_doubles
+
+    base = make_warmup_run(n, W1 + W2)
+
+    def harness(ctx: PathCtx):
+        state = {"draw": 0, "fhat": []}
+
+        def loglike(x):
+            x = np.asarray(x, dtype=object)
+            out, nfin = [], 0
+            for i in range(x.shape[0]):
+                k = state["draw"]
+                state["draw"] += 1
+                if bool(boolean(ctx, f"inf{k}")):
+                    out.append(float("-inf"))
+                else:
+                    nfin += 1
+                    out.append(LogVal.atom(f"l{k}", 1))
+            if nfin == 0:
+                raise PathInfeasible()
+            state["fhat"].append(Fraction(nfin, x.shape[0]))
+            return sarr(out)
+
+        def mk():
+            return Sampler(lambda u: u, loglike, n_dim=1, n_particles=n, ess_ratio=float(W1 + W2 + 2), vectorize=True, clustering=False,
+                           output_dir=tempfile.gettempdir())
+        from vf.props.c05 import max_model
+        stub = RandomStub(Draws(ctx), max_calls=3 * (W1 + W2) + 2)
+        fs = FakeFS()
+        path = Path(tempfile.gettempdir()) / "vf_c11" / "ps_1.state"
+        with patched(sm_mod, np=NpProxy(exact_log=True)), patched(core_mod, np=core_proxy()), numpy_import_as(core_proxy()), \
+                patched(rw_mod, np=NpProxy(exact_log=True, overrides={"max": max_model, "isfinite": lambda v: True})), \
+                patched(mutate_mod, np=NpProxy(random=stub, exact_log=True, overrides={"isinf": isinf_model})):
+            A = mk()
+            A._core._initialize_fresh()
+            for it in range(W1):
+                A.sample()
+            with io_doubles(fs):
+                A.save_state(path)
+                B = mk()
+                rs = np.random.get_state()
+                try:
+                    B._core._initialize_from_resume(path)
+                finally:
+                    np.random.set_state(rs)
+            for it in range(W2):
+                B.sample()
+                ctx.check(f"resumed-iteration-{it + 1}-is-warm-up(beta==0)", eq(B.state._current["beta"], 0))
+        st = B.state
+        logz_hist, logl_hist = st._history["logz"], st._history["logl"]
+        ctx.check("resumed-history-has-every-iteration", z3.BoolVal(len(logz_hist) == W1 + W2 and all(len(b) == n for b in logl_hist)),
+                  detail={"batches": len(logz_hist)})
+        ctx.check("no-minus-inf-stored", z3.BoolVal(sum(1 for b in logl_hist for v in b if isinstance(v, float)) == 0))
+        fh = state["fhat"]
+        for t in range(len(logz_hist)):
+            lz = logz_hist[t]
+            e = lz.exp() if isinstance(lz, LogVal) else SymReal.const(Fraction(math.exp(lz)) if lz != 0 else 1)
+            lo, hi = min(fh[: t + 1]), max(fh[: t + 1])
+            ctx.check(f"warmup-logz[{t}]-within-batch-fractions", z3.And(le(lo, e), le(e, hi)), detail=[str(f) for f in fh[: t + 1]])
+        return [str(f) for f in fh]
+
+    def replay(m, label, v):
+        import shutil
+        flags, k = [], 0
+        while f"inf{k}" in m:
+            flags.append(bool(m[f"inf{k}"]))
+            k += 1
+        cnt = {"i": 0}
+
+        def loglike(x):
+            out = []
+            for i in range(len(x)):
+                j = cnt["i"]
+                cnt["i"] += 1
+                out.append(-np.inf if (j < len(flags) and flags[j]) else -0.5 * (j % 3))
+            return np.array(out)
+        tmp = tempfile.mkdtemp(prefix="vf_c11_")
+        s0 = np.random.get_state()
+        try:
+            np.random.seed(0)
+            mk = lambda: Sampler(lambda u: u, loglike, n_dim=1, n_particles=n, ess_ratio=float(W1 + W2 + 2), vectorize=True, clustering=False, output_dir=tmp)
+            A = mk()
+            A._core._initialize_fresh()
+            for it in range(W1):
+                A.sample()
+            A.save_state(Path(tmp) / "ck.state")
+            B = mk()
+            B._core._initialize_from_resume(Path(tmp) / "ck.state")
+            for it in range(W2):
+                B.sample()
+            lz = [float(z) for z in B.state.get_history("logz")]
+            stored_inf = bool(np.any(np.isinf(B.state.get_history("logl", flat=True))))
+        finally:
+            np.random.set_state(s0)
+            shutil.rmtree(tmp, ignore_errors=True)
+        fh = []
+        for t in range(W1 + W2):
+            fl = flags[t * n:(t + 1) * n] + [False] * n
+            fh.append(1 - sum(fl[:n]) / n)
+        bad = len(lz) != W1 + W2
+        for t in range(min(len(lz), W1 + W2)):
+            lo, hi = min(fh[: t + 1]), max(fh[: t + 1])
+            if not (lo - 1e-12 <= math.exp(lz[t]) <= hi + 1e-12):
+                bad = True
+        if label == "no-minus-inf-stored":
+            bad = stored_inf
+        return {"reproduced": bool(bad), "signature": "warmup-logz:wrong-after-resume" if label.startswith("warmup-logz") else f"warmup-resume:{label}",
+                "payload": {"inf_flags": flags, "batch_fractions": fh, "logz_history": lz},
+                "what": f"{W1} warm-up iterations, save, resume in a new sampler, {W2} more warm-up iterations of {n} draws with -inf pattern {flags}: "
+                        f"supported fractions {fh}, recorded exp(logz) = {[round(math.exp(z), 6) for z in lz]}"}
+
+    return Obligation(f"warmup-resume-n{n}-W{W1}+{W2}", harness, replay=replay,
+                      encodes=[core_mod.SamplerCore.execute_iteration, core_mod.SamplerCore.save_sampler_state, core_mod.SamplerCore.load_sampler_state,
+                               mutate_mod.Mutator.run, rw_mod.Reweighter.run, sm_mod.StateManager.compute_logw_and_logz],
+                      bounds=f"n_particles={n}, {W1} warm-up iterations before and {W2} after a checkpoint/resume into a new sampler, every -inf pattern with >= 1 finite "
+                             "draw per batch, all replacement index choices",
+                      stubs=["np.random.rand/choice -> symbolic draws", "file system / dill -> by-value doubles (C08)", "np.log of int ratios -> exact"],
+                      theory="QF_NRA", timeout_ms=20000, max_paths=6000)
+
+
 def obligations(tier):
     if tier == "quick":
-        return [make_warmup_run(2, 2), make_warmup_run(2, 3), make_warmup_run(3, 2), make_warmup_run(2, 3, dynamic=True)]
+        return [make_warmup_run(2, 2), make_warmup_run(2, 3), make_warmup_run(3, 2), make_warmup_run(2, 3, dynamic=True), make_warmup_resume(2, 1, 2)]
     return [make_warmup_run(2, 2), make_warmup_run(2, 3), make_warmup_run(3, 2), make_warmup_run(3, 3), make_warmup_run(2, 4),
-            make_warmup_run(2, 3, dynamic=True), make_warmup_run(3, 2, dynamic=True)]
+            make_warmup_run(2, 3, dynamic=True), make_warmup_run(3, 2, dynamic=True), make_warmup_resume(2, 1, 2), make_warmup_resume(2, 2, 2), make_warmup_resume(3, 1, 1)]
